@@ -31,9 +31,10 @@ VARIABLES
   \* ---- history ----
   khist,   \* decisions of this invocation: [kind, path, nr], kind in attempt|skip|expand|fire
   keff,    \* side effects of this invocation: [kind, path, pid, victim]
-  uuids    \* kill uuids seen so far (interned)
+  uuids,   \* kill uuids seen so far (interned)
+  stale    \* cgroups that emptied in the middle of the current run: a populated flag cached earlier in the tick may still say 1
 
-kvars == <<kw, kcfg, kx, kph, stack, tried, hk, att, kctx, know, kstat, kret, ktick, pgLast,
+kvars == <<stale, kw, kcfg, kx, kph, stack, tried, hk, att, kctx, know, kstat, kret, ktick, pgLast,
            liveInv, khist, keff, uuids>>
 
 ----------------------------------------------------------------------------
@@ -98,14 +99,14 @@ KInit ==
                         always |-> FALSE, kernel |-> FALSE, reap |-> FALSE, hooks |-> <<>>]
   /\ kx = <<>> /\ kph = "idle" /\ stack = <<>> /\ tried = FALSE /\ hk = NoHook /\ att = NoAtt
   /\ kctx = [deadline |-> -1] /\ know = 0 /\ kstat = 0 /\ kret = "" /\ ktick = 0 /\ pgLast = -1
-  /\ liveInv = {} /\ khist = <<>> /\ keff = {} /\ uuids = {}
+  /\ liveInv = {} /\ khist = <<>> /\ keff = {} /\ uuids = {} /\ stale = {}
 
 \* a new execution: world, configuration, pre-existing xattrs
 KReset(w, cfg, x, t) ==
   /\ kw' = w /\ kcfg' = cfg /\ kx' = x /\ know' = t
   /\ kph' = "idle" /\ stack' = <<>> /\ tried' = FALSE /\ hk' = NoHook /\ att' = NoAtt
   /\ kctx' = [deadline |-> -1] /\ kstat' = 0 /\ kret' = "" /\ ktick' = 0 /\ pgLast' = -1
-  /\ liveInv' = {} /\ khist' = <<>> /\ keff' = {} /\ uuids' = {}
+  /\ liveInv' = {} /\ khist' = <<>> /\ keff' = {} /\ uuids' = {} /\ stale' = {}
 
 \* environment between plugin invocations: cgroups come and go, metrics change, time passes
 KEnv(w, t) ==
@@ -114,12 +115,25 @@ KEnv(w, t) ==
   \* xattrs live and die with the cgroup they are set on (a re-created cgroup has none)
   /\ kx' = [p \in {q \in DOMAIN kx : \E n \in w : n.path = q /\ \E m \in kw : m.path = q /\ m.gen = n.gen} |-> kx[p]]
   /\ khist' = <<>> /\ keff' = {}        \* history belongs to one invocation
+  /\ stale' = {}                        \* a new tick reads everything afresh
   /\ UNCHANGED <<kcfg, kph, stack, tried, hk, att, kctx, kstat, kret, pgLast, liveInv, uuids>>
+
+\* environment INSIDE a run: the last process of a cgroup exits (cgroup.events: populated 0, pids.current 0, empty
+\* cgroup.procs).  What the tick already cached about it stays; what is read afresh (kernelkill re-reads
+\* cgroup.events and pids.current right before writing cgroup.kill; every cgroup.procs read) sees the new state.
+KEmpty(p) ==
+  /\ kph \notin {"idle", "over", "sd"} /\ Exists(p) /\ Node(p).pop
+  /\ kw' = (kw \ {Node(p)}) \cup {[Node(p) EXCEPT !.pop = FALSE, !.pidsCur = 0]}
+  /\ stale' = stale \cup {p}
+  /\ UNCHANGED <<kcfg, kx, kph, stack, tried, hk, att, kctx, know, kstat, kret, ktick, pgLast,
+                 liveInv, khist, keff, uuids>>
+\* the populated flag as the walk may see it: the current one, or the one cached before the cgroup emptied
+PopSeen(p) == {Node(p).pop} \cup (IF p \in stale THEN {TRUE} ELSE {})
 
 \* the clock moves inside a run (1 s breather between signalling rounds)
 KClock(t) ==
   /\ t >= know /\ know' = t
-  /\ UNCHANGED <<kw, kcfg, kx, kph, stack, tried, hk, att, kctx, kstat, kret, ktick, pgLast,
+  /\ UNCHANGED <<stale, kw, kcfg, kx, kph, stack, tried, hk, att, kctx, kstat, kret, ktick, pgLast,
                  liveInv, khist, keff, uuids>>
 
 ----------------------------------------------------------------------------
@@ -142,14 +156,14 @@ KRun(deadline) ==
         ELSE \E o \in Rankings(Roots \ {<<>>}) :
                /\ stack' = PushRanked(<<>>, o, Roots \ {<<>>})
                /\ tried' = FALSE /\ kph' = "dfs" /\ UNCHANGED hk
-  /\ UNCHANGED <<kw, kcfg, kx, att, know, kstat, ktick, liveInv, uuids>>
+  /\ UNCHANGED <<stale, kw, kcfg, kx, att, know, kstat, ktick, liveInv, uuids>>
 
 ----------------------------------------------------------------------------
 (* depth-first walk over the candidate stack (silent steps) *)
 
 Top == stack[Len(stack)]
 Popped == SubSeq(stack, 1, Len(stack) - 1)
-DfsUnch == UNCHANGED <<kw, kcfg, kx, hk, kctx, know, kstat, ktick, pgLast, liveInv, uuids>>
+DfsUnch == UNCHANGED <<stale, kw, kcfg, kx, hk, kctx, know, kstat, ktick, pgLast, liveInv, uuids>>
 
 \* descend one level: the candidate is replaced by its ranked children
 DfsExpand ==
@@ -162,7 +176,7 @@ DfsExpand ==
 Leaf == ~(kcfg.recursive /\ ~Node(Top.path).oomg /\ Children(Top.path) # {})
 
 DfsSkipUnpopulated ==
-  /\ kph = "dfs" /\ stack # <<>> /\ Leaf /\ ~Node(Top.path).pop
+  /\ kph = "dfs" /\ stack # <<>> /\ Leaf /\ FALSE \in PopSeen(Top.path)
   /\ stack' = Popped
   /\ khist' = Append(khist, HistV("skip", Top.path, 0, Top.via))
   /\ UNCHANGED <<kph, tried, att, kret, keff>> /\ DfsUnch
@@ -175,7 +189,7 @@ BeginAttempt(c) ==
   /\ kph' = "attempt"
 
 DfsAttemptNoHook ==
-  /\ kph = "dfs" /\ stack # <<>> /\ Leaf /\ Node(Top.path).pop
+  /\ kph = "dfs" /\ stack # <<>> /\ Leaf /\ TRUE \in PopSeen(Top.path)
   /\ (PastTimeout \/ FirstHook(Top.path) = "")
   /\ stack' = Popped
   /\ BeginAttempt(Top)
@@ -191,7 +205,7 @@ DfsFail ==
 (* prekill hook protocol (observable events) *)
 
 HookFire(hook, inv, path, gen) ==
-  /\ kph = "dfs" /\ stack # <<>> /\ Leaf /\ Node(Top.path).pop
+  /\ kph = "dfs" /\ stack # <<>> /\ Leaf /\ TRUE \in PopSeen(Top.path)
   /\ ~PastTimeout /\ FirstHook(Top.path) # ""
   /\ hook = FirstHook(Top.path) /\ path = Top.path /\ gen = Top.gen
   /\ inv \notin liveInv /\ ~hk.has
@@ -199,7 +213,7 @@ HookFire(hook, inv, path, gen) ==
   /\ hk' = [has |-> FALSE, inv |-> inv, path |-> path, gen |-> gen, via |-> Top.via, stack |-> Popped]
   /\ kph' = "fired"
   /\ khist' = Append(khist, HistV("fire", path, 0, Top.via))
-  /\ UNCHANGED <<kw, kcfg, kx, stack, tried, att, kctx, know, kstat, kret, ktick, pgLast, keff, uuids>>
+  /\ UNCHANGED <<stale, kw, kcfg, kx, stack, tried, att, kctx, know, kstat, kret, ktick, pgLast, keff, uuids>>
 
 \* didFinish() asked right after firing
 HookPollInline(inv, res) ==
@@ -208,7 +222,7 @@ HookPollInline(inv, res) ==
      THEN /\ kph' = "polled" /\ UNCHANGED <<hk, kret>>          \* proceeds to the kill
      ELSE /\ hk' = [hk EXCEPT !.has = TRUE]                      \* wait across ticks
           /\ kph' = "ret" /\ kret' = "ASYNC"
-  /\ UNCHANGED <<kw, kcfg, kx, stack, tried, att, kctx, know, kstat, ktick, pgLast, liveInv,
+  /\ UNCHANGED <<stale, kw, kcfg, kx, stack, tried, att, kctx, know, kstat, ktick, pgLast, liveInv,
                  khist, keff, uuids>>
 
 \* the invocation object dies before anything is signalled
@@ -229,7 +243,7 @@ HookDestroy(inv) ==
                 /\ UNCHANGED <<att, tried>>
         /\ hk' = NoHook
   /\ liveInv' = liveInv \ {inv}
-  /\ UNCHANGED <<kw, kcfg, kx, kctx, know, kstat, ktick, pgLast, keff, uuids>>
+  /\ UNCHANGED <<stale, kw, kcfg, kx, kctx, know, kstat, ktick, pgLast, keff, uuids>>
 
 \* next tick: poll again; past the window the kill goes ahead regardless
 HookPollResume(inv, res) ==
@@ -237,13 +251,13 @@ HookPollResume(inv, res) ==
   /\ IF res \/ PastTimeout
      THEN kph' = "resumed" /\ UNCHANGED kret
      ELSE kph' = "ret" /\ kret' = "ASYNC"
-  /\ UNCHANGED <<kw, kcfg, kx, stack, tried, hk, att, kctx, know, kstat, ktick, pgLast, liveInv,
+  /\ UNCHANGED <<stale, kw, kcfg, kx, stack, tried, hk, att, kctx, know, kstat, ktick, pgLast, liveInv,
                  khist, keff, uuids>>
 
 ----------------------------------------------------------------------------
 (* one kill attempt (observable events) *)
 
-AttUnch == UNCHANGED <<kw, kcfg, stack, tried, hk, kctx, know, ktick, pgLast, liveInv, khist>>
+AttUnch == UNCHANGED <<stale, kw, kcfg, stack, tried, hk, kctx, know, ktick, pgLast, liveInv, khist>>
 InAtt(stage) == kph = "attempt" /\ att.stage = stage
 
 \* trusted./user.oomd_kill_uuid := this attempt's fresh id
@@ -337,7 +351,7 @@ AttemptEnd ==
           /\ stack' = <<>>
      ELSE /\ kph' = "dfs" /\ UNCHANGED <<kret, stack>>
   /\ att' = NoAtt
-  /\ UNCHANGED <<kw, kcfg, kx, tried, hk, kctx, know, kstat, ktick, pgLast, liveInv, keff, uuids>>
+  /\ UNCHANGED <<stale, kw, kcfg, kx, tried, hk, kctx, know, kstat, ktick, pgLast, liveInv, keff, uuids>>
 
 \* kernelkill on a cgroup found unpopulated after freezing: nothing killed, nothing counted
 AttemptEndUnpopulated ==
@@ -348,7 +362,7 @@ AttemptEndUnpopulated ==
 KRet(ret) ==
   /\ kph = "ret" /\ ret = kret
   /\ kph' = "idle"
-  /\ UNCHANGED <<kw, kcfg, kx, stack, tried, hk, att, kctx, know, kstat, kret, ktick, pgLast,
+  /\ UNCHANGED <<stale, kw, kcfg, kx, stack, tried, hk, att, kctx, know, kstat, kret, ktick, pgLast,
                  liveInv, khist, keff, uuids>>
 
 KSilent == DfsExpand \/ DfsSkipUnpopulated \/ DfsAttemptNoHook \/ DfsFail \/ AttemptEnd
@@ -384,7 +398,8 @@ OrderRespected ==
         \/ ~Exists(p)
 NoDescentBelowOomGroup == \A i \in DOMAIN khist : khist[i].kind = "expand" => ~Node(khist[i].path).oomg /\ kcfg.recursive
 UnpopulatedNeverAttempted ==
-  \A i \in DOMAIN khist : khist[i].kind \in {"attempt", "fire"} /\ ~Resumed => Node(khist[i].path).pop
+  \A i \in DOMAIN khist : khist[i].kind \in {"attempt", "fire"} /\ ~Resumed =>
+     (Node(khist[i].path).pop \/ khist[i].path \in stale)
 
 \* C04
 DryIsPure == kcfg.dry => keff = {} /\ kstat = 0
